@@ -256,7 +256,7 @@ func c01(r *Run) {
 		r.ob("C01.R2:length-subtracted-before-consume:"+fn.Name(), "a method that advances a node's read offset has subtracted the consumed count from the atomic length first (Len() never over-reports; the Peek cache is invalidated)", fn, site0, bad == 0, detail, true)
 	}
 	if nAdv < 5 {
-		broken("ANCHOR-LOST C01: only %d consuming methods found", nAdv)
+		r.absentf(" C01: only %d consuming methods found", nAdv)
 	}
 	// the count subtracted is the count checked: recalLen's argument is the negation of the size parameter
 	for _, name := range []string{"Next", "Skip", "readBinary", "Slice"} {
